@@ -208,9 +208,9 @@ def run_vars(tape, env, viol, history, want_c10=False):
                     bits = 8 * struct.calcsize(f)
                     lo, hi = (-(1 << (bits - 1)), (1 << (bits - 1)) - 1) if f[-1].islower() \
                         else (0, (1 << bits) - 1)
-                    if f[0] in ">!" or not lo <= model[n] <= hi or n in program_written:
-                        # big-endian formats: open finding; out of range: not judged; the
-                        # statement is about values written by the *other* side
+                    if not lo <= model[n] <= hi or n in program_written:
+                        # out of range: not judged; the statement is about values written
+                        # by the *other* side
                         continue
                     env.world.count("c09/program-read-of-python-value-checked")
                     got = getattr(p, "o_" + n)
